@@ -13,6 +13,8 @@ package main
 //  (vii) mixed sizes: the runs of (ii) with argument and result payloads from a few bytes to several
 //        hundred KiB in the same run, over a byte relay (the real readers see the very bytes the real
 //        writers produced; a tap gives the trace) and over net.Pipe, a unix socket and a TCP socket
+//  (viii) calls issued while the connection is being torn down (c04teardown.go)
+//  (ix)  calls pipelined to one object whose method adds/removes objects of its own service (c04factory.go)
 
 import (
 	"bytes"
@@ -1432,7 +1434,7 @@ func runC04(res *hx.Result, rng *hx.Rng, tier string, outdir string) {
 	}
 	_ = value.String
 	noncall, postAnswered := h.probeSwitches(res)
-	cases := hx.NewCases(outdir, "C04cases", "From QV Require Import Call C04Run.", "mismatches cfg_obs rs ts", res, "rs", "rcase", "ts", "tcase")
+	cases := hx.NewCases(outdir, "C04cases", "From QV Require Import Call C04Run.", "mismatches cfg_obs rs ts ds", res, "rs", "rcase", "ts", "tcase", "ds", "dcase")
 	cases.Extra = append(cases.Extra, fmt.Sprintf("Definition cfg_obs : cfg := {| noncall_runs := %s; post_answered := %s |}.", hx.Bool(noncall), hx.Bool(postAnswered)))
 
 	// (i) raw frames: the full matrix first, then random ones
@@ -1544,8 +1546,14 @@ func runC04(res *hx.Result, rng *hx.Rng, tier string, outdir string) {
 	// (vii) the same concurrent callers with payload sizes from a few bytes to several hundred KiB
 	// mixed in one run, over every transport
 	h.mixedSizes(res, rng, cases, tier, outdir)
+	// (viii) calls issued while the connection is being torn down
+	h.tearDown(res, rng, cases, tier, outdir)
+	// (ix) calls pipelined to one object whose method adds / removes objects of its own service
+	h.factory(res, rng, cases, tier)
 	cases.Flush()
 	res.Notes = append(res.Notes, h.notes...)
 	res.Notes = append(res.Notes, "goroutine scheduling inside one process cannot be forced between two lock acquisitions: part (ii) is stress with per-call oracles and a trace check; the theorems cover all schedules of the model")
-	h.srv.Terminate()
+	term := make(chan struct{})
+	go func() { h.srv.Terminate(); close(term) }()
+	c04WaitCh(term, 2*time.Second)
 }
